@@ -53,6 +53,7 @@ class SimNet(object):
         self.fired = {}                          # fault kind -> count
         self.tamper = {}                         # (callee, methname) -> fn(args, result) -> result
         self.call_filter = None
+        self.answer_hook = None                  # fn(caller, callee, method, result) when a response reaches the caller
 
     # -- connections ---------------------------------------------------------------
     def conn(self, a, b):
@@ -340,19 +341,21 @@ class SimRef(object):
         else:
             t = max(t, conn.last_resp_t + 2e-6)
             conn.last_resp_t = t
-        dc = R.callLaterKeyed(t - now, _key(label, "resp"), self._answer, mid, gen, d, res)
+        dc = R.callLaterKeyed(t - now, _key(label, "resp"), self._answer, mid, gen, d, res, label[2])
         dc.sim_label = "resp:%s>%s:%s#%d" % label
 
-    def _answer(self, mid, gen, d, res):
+    def _answer(self, mid, gen, d, res, methname=None):
         conn = self.conn
         R = self.net.R
         if not conn.up or conn.generation != gen or mid not in conn.inflight:
             return
         if R.true_seconds() < conn.stalled_until:
-            dc = R.callLater(conn.stalled_until - R.true_seconds() + mid * 1e-9, self._answer, mid, gen, d, res)
+            dc = R.callLater(conn.stalled_until - R.true_seconds() + mid * 1e-9, self._answer, mid, gen, d, res, methname)
             dc.sim_label = "resp-stalled:%d" % mid
             return
         del conn.inflight[mid]
+        if self.net.answer_hook is not None:
+            self.net.answer_hook(self.caller, self.callee, methname, res)
         if isinstance(res, Failure):
             d.errback(res)
         else:
